@@ -507,7 +507,8 @@ def run_shard(shard, ctx):
 LEVEL_TEXT = (
     "Exploration against independent encoders: thousands (thorough: ~700 000) of configuration blocks whose structured "
     "settings were encoded from a model by code written from the binary formats (frozen opcode tables); the decoded "
-    "human-readable value of every structured setting and derived property must equal the model step for step. "
+    "human-readable value of every structured setting and derived property must equal the model step for step, and must "
+    "be the same again after the caller edited what it was handed (every decoder called twice around an edit, views re-read). "
     "BeaconGate vectors: all single flags and group boundaries in quick, all 2^23 vectors in thorough."
 )
 LEVEL_NOTE = "Held on the encodings explored; trusted base: the frozen numbering tables and the encoders in this module."
